@@ -120,6 +120,23 @@ static void run_op(char **t, int n) {
       printf("declared %u written %ld\n", declared, sm_written_total - w1); show_out(nm);
     }
   }
+  else if (!strcmp(o, "cab_extract_seq") && n >= 5) {   /* cab_extract_seq VAR OUTPREFIX SEED COUNT : pseudo-random member order with repeats (same, next, random) */
+    struct mscabd_cabinet *c = cabs[vi(t[1])]; struct mscabd_file *f; int cnt = 0, k, idx = 0, count = atoi(t[4]); unsigned long z = strtoul(t[3], NULL, 10) * 2654435761ul + 12345;
+    char nm[80];
+    if (!cabd || !c) return;
+    for (f = c->files; f; f = f->next) cnt++;
+    if (!cnt) return;
+    for (k = 0; k < count; k++) {
+      unsigned int declared; long w1 = sm_written_total; unsigned r;
+      z = z * 6364136223846793005ul + 1442695040888963407ul; r = (unsigned) (z >> 33);
+      if (k == 0 || r % 4 == 3) idx = (int) ((r >> 4) % (unsigned) cnt); else if (r % 4 == 1) idx = (idx + 1) % cnt; else if (r % 4 == 2 && idx > 0) idx = idx - 1; /* r%4==0: same again */
+      f = cab_file(c, idx); if (!f) break;
+      declared = f->length; snprintf(nm, sizeof nm, "%s%d_%d", t[2], k, idx);
+      if (k) opno++;
+      st = cabd->extract(cabd, f, nm); printf("op %d cab_extract st=%d err=%d idx=%d\n", opno, st, cabd->last_error(cabd), idx);
+      printf("declared %u written %ld\n", declared, sm_written_total - w1); show_out(nm);
+    }
+  }
   else if (!strcmp(o, "chm_extract_all") && n >= 3) {
     struct mschmd_header *h = chms[vi(t[1])]; struct mschmd_file *f; int k, max = n >= 4 ? atoi(t[3]) : 1000000, rev = n >= 5 && atoi(t[4]), cnt = 0; char nm[80];
     if (!chmd || !h) return;
